@@ -166,7 +166,11 @@ func flattenErrs(err error, out *[]error) {
 
 // describeErr renders one returned error; `located` is the property's second sentence evaluated on this error, in the
 // value as the caller finds it after validation.
-func describeErr(err error, input any) map[string]any {
+func describeErr(err error, input any) map[string]any { return c12DescribeErr(err, input, "") }
+
+// c12DescribeErr: `customText` non-empty = a message customizer returning that text is installed: where Error() returns it
+// the printed path is not observable (the property does not ask that every error honours the customizer).
+func c12DescribeErr(err error, input any, customText string) map[string]any {
 	se, ok := err.(*openapi3.SchemaError)
 	if !ok {
 		return map[string]any{"field": "<not a SchemaError>", "located": true}
@@ -197,7 +201,11 @@ func describeErr(err error, input any) map[string]any {
 		txt := se.Error()
 		_ = se.Unwrap()
 		p3 := append([]string{}, se.JSONPointer()...)
-		for _, p := range [][]string{p2, c12ErrorTextPath(txt, ptr), p3} {
+		pe := c12ErrorTextPath(txt, ptr)
+		if customText != "" && txt == customText {
+			pe = ptr // the customised text shows no path; an error built without the customizer (the uncompilable-pattern error of schema_pattern.go) prints the usual text, whose path is checked as usual
+		}
+		for _, p := range [][]string{p2, pe, p3} {
 			if p == nil {
 				p = []string{}
 			}
@@ -224,10 +232,14 @@ func c12ErrorTextPath(txt string, first []string) []string {
 	if len(txt) >= len(want) && txt[:len(want)] == want {
 		return first
 	}
-	if len(txt) > 80 {
-		txt = txt[:80]
+	return []string{"<Error() text: " + c12Clip(txt) + ">"}
+}
+
+func c12Clip(s string) string {
+	if len(s) > 80 {
+		return s[:80]
 	}
-	return []string{"<Error() text: " + txt + ">"}
+	return s
 }
 
 // c12ReobsKeys: per error "pointer => pointers of the further observations"
@@ -244,13 +256,15 @@ func c12ReobsKeys(v any) map[string]bool {
 	return out
 }
 
-func modeObs(err error, after any, withAfter bool) map[string]any {
+func modeObs(err error, after any, withAfter bool) map[string]any { return c12ModeObs(err, after, withAfter, "") }
+
+func c12ModeObs(err error, after any, withAfter bool, customText string) map[string]any {
 	errs := []any{}
 	if err != nil {
 		var flat []error
 		flattenErrs(err, &flat)
 		for _, e := range flat {
-			errs = append(errs, describeErr(e, after))
+			errs = append(errs, c12DescribeErr(e, after, customText))
 		}
 	}
 	out := map[string]any{"ok": err == nil, "errs": errs}
@@ -274,6 +288,7 @@ func runC12(c hx.Case) any {
 	// every mode validates its own fresh copy of the value; with DefaultsSet under a request/response reading the copy is
 	// mutated and handed back, otherwise it must come back as it went in
 	inj := jbool(c, "dfl") && jstr(c, "ctx") != ""
+	customText := ""
 	run := func(o ...openapi3.SchemaValidationOption) map[string]any {
 		v := goValue(c["value"])
 		fired := false
@@ -284,7 +299,7 @@ func runC12(c hx.Case) any {
 		if !inj && !jbool(c, "nonjson") && (!reflect.DeepEqual(v, pristine) || fired) {
 			unchanged = false
 		}
-		out := modeObs(e, v, inj)
+		out := c12ModeObs(e, v, inj, customText)
 		if inj {
 			out["fired"] = fired
 		}
@@ -295,9 +310,14 @@ func runC12(c hx.Case) any {
 		"multi":    run(openapi3.MultiErrors()),
 		"failfast": run(openapi3.FailFast()),
 		"ffmulti":  run(openapi3.FailFast(), openapi3.MultiErrors()),
-		// options that only customise messages, or that do not concern value validation
-		"custom": run(openapi3.SetSchemaErrorMessageCustomizer(func(e *openapi3.SchemaError) string { return "custom" }), openapi3.EnableFormatValidation())["ok"],
 	}
+	// options that only customise messages, or that do not concern value validation: same verdict, and the same errors
+	// (field, pointer, quoted value) as in default mode
+	customText = "custom"
+	cu := run(openapi3.SetSchemaErrorMessageCustomizer(func(e *openapi3.SchemaError) string { return "custom" }), openapi3.EnableFormatValidation())
+	customText = ""
+	out["custom"] = cu["ok"]
+	out["customObs"] = cu
 	if len(co) == 0 { // the helpers have no request/response reading and take no option
 		out["matching"] = s.IsMatching(goValue(c["value"]))
 		if t := typedMatching(s, goValue(c["value"])); t != nil {
@@ -389,6 +409,19 @@ func cmpC12(c hx.Case, impl any, reply map[string]any) hx.Verdict {
 				v.IS = false
 				v.Detail = fmt.Sprintf("mode %s: error %v does not point at the value it quotes (value after validation: %v)", mode, hx.Canon(em), hx.Canon(obs[mode]["after"]))
 			}
+		}
+	}
+	if cu, ok := im["customObs"].(map[string]any); ok {
+		for _, e := range jlist(cu["errs"]) {
+			em, _ := e.(map[string]any)
+			if !jbool(em, "located") {
+				v.IS = false
+				v.Detail = fmt.Sprintf("with a message customizer: error %v does not point at the value it quotes", hx.Canon(em))
+			}
+		}
+		if !sameStrs(errKeys(cu), errKeys(obs["dflt"]), true) {
+			v.IS = false
+			v.Detail += fmt.Sprintf(" | a message customizer changes the errors: %v, default mode %v", errKeys(cu), errKeys(obs["dflt"]))
 		}
 	}
 	if !jbool(im, "unchanged") {
